@@ -168,12 +168,12 @@ def shrink(prog, calls, cfg, what, budget_s=60, log=None):
 
     def still(p, cs):
         try:
-            src = p.vy()
-            obs = H.observe(p, cfg, cs, src)
+            m = H.model_eval([(p, cs)], "shrink", procs=1)[0]
         except Exception:
             return None
         try:
-            m = H.model_eval([(p, cs)], "shrink", procs=1)[0]
+            src = p.vy()
+            obs = H.observe(p, cfg, cs, src, model_final=m[1])
         except Exception:
             return None
         d = H.compare(p, cs, m, obs)
